@@ -255,8 +255,10 @@ def run(ctx, chk, tier="quick"):
                    why="a left-aligned rate flags the sample before the jump instead of the one where the level arrived")
             if quotient is not None:
                 try:
-                    ue = UnitEval(name_unit=lambda n: unit_of_name(n.id) or ((1, 0, 1) if n.id == epoch_name else None),
-                                  call_unit=lambda c, ev: ev.unit(c.args[0]) if c.args else None)
+                    from ..units import FlowUnits
+                    from fractions import Fraction as _Fr
+                    _fu = FlowUnits(ctx, g, extra={epoch_name: (_Fr(1), 0, 1)}, call_unit=lambda c, ev: ev.unit(c.args[0]) if c.args else None)
+                    ue = _fu.evaluator()
                     # unit of dz / dt
                     from fractions import Fraction
                     u = ue.unit(quotient)
@@ -265,7 +267,7 @@ def run(ctx, chk, tier="quick"):
                            "rate unit [%s] compared with %s [%s]" % (fmt(u), thr, fmt(tu)), "same unit (mm/h)",
                            key="classify_interstorms|rate-unit", why="a rate in mm/s or mm/step compared with a mm/h threshold")
                 except UnitError as exc:
-                    chk.indeterminate("C04.O2", where_of(g, rdef), "rate unit: %s" % exc)
+                    chk.info("C04.O2", where_of(g, rdef), "rate unit not determinable: %s" % exc, "not decided")
     # is_interstorm truth table
     mys_name = None
     st = enclosing_stmt(mc)
